@@ -154,6 +154,28 @@ def oneSection : List Op → Bool
 /-- a request never touches the write side -/
 def readerProg (p : List Op) : Bool := p.all fun o => o != .lock && o != .unlock && o != .swapSel
 
+/-! ### extracted paths (`CJ/Gen/LockPrograms.lean`) and the plain mutex -/
+
+/-- One path through an exported entry point of the package, as the extractor emits it: the entry point,
+the branch labels (informational), the address families whose selection block the path enters, whether
+it leaves some function on the way through a `return` that is not the last statement of its body, and
+the operations on the lock in execution order. -/
+structure Path where
+  root : String
+  name : String
+  fams : List Nat
+  early : Bool
+  ops : List Op
+deriving Repr, Inhabited
+
+/-- *Balanced* (for a plain `sync.Mutex`, which is an `RWMutex` used through `Lock`/`Unlock` only): the
+path is a sequence of `Lock; Unlock` pairs and nothing else — every `Lock` is followed by its `Unlock`
+before the function returns, nothing is acquired while the lock is held. -/
+def balanced : List Op → Bool
+  | [] => true
+  | .lock :: .unlock :: p => balanced p
+  | _ => false
+
 /-! ### executable search for a deadlock (small thread sets) -/
 
 def enabled (s : St) : List Nat :=
